@@ -42,6 +42,7 @@ def run(ck):
     ck.rule("C11.R16", "`is this a span or an event` (what decides whether span directives and field-name constraints apply) reads the callsite kind's own bit: three distinct bits, each predicate tests its own", floor=6)
     ck.rule("C11.R17", "the max-level shortcut in front of the directive table never hides an entry: DirectiveSet::add keeps max_level >= every stored level, also on replacement (as C08.R4)", floor=1)
     ck.rule("C11.R18", "`the directive allows its level` compares levels with a correct total order (as C19.R1/R2/R4)", floor=60)
+    ck.rule("C11.R19", "Targets builder steps add exactly the directive they name: with_target -> (Some(target), no field names, level), with_default -> (None, no field names, level), each through DirectiveSet::add, returning the same Targets", floor=2)
     ck.rule("C11.R9", "EnvFilter Builder steps keep every other option (same-named field carry-over, as C13.R6)", floor=3)
     ck.rule("C11.R1", "directive vector mutated only by DirectiveSet::add at the binary_search position; max_level kept an upper bound", floor=5)
     ck.rule("C11.R2", "first match in storage order decides; no match disables; siblings agree", floor=4)
@@ -68,6 +69,7 @@ def run(ck):
     has_dynamics_rule(ck, F)
     match_visitor_rule(ck, F)
     kind_rule(ck, F)
+    targets_builder_rule(ck, F)
     from rules import C19 as _C19
     _C19.order_rules(ck, Facts("default"), "C11.R18")
     C08.directive_add_rule(ck, Facts("release"), rid="C11.R17")
@@ -817,3 +819,31 @@ def kind_rule(ck, F, rid="C11.R16"):
             ck.ok(rid, key, fn=b.path)
         else:
             ck.bad(rid, key, where(b.raw["sp"]), "returns %s" % rets, fn=b.path)
+
+
+def targets_builder_rule(ck, F):
+    P = "tracing_subscriber::filter::targets::Targets::"
+    want = {"with_target": ["Option::Some{into(arg2)}", "default()", "into(arg3)"], "with_default": ["Option::None{}", "default()", "into(arg2)"]}
+    for m, args in want.items():
+        b = F.body(P + m)
+        if not ck.anchor("C11.R19", "Targets::" + m, b):
+            continue
+        key = "Targets::%s adds StaticDirective(%s)" % (m, ", ".join(args))
+        problems = []
+        n = 0
+        for pth in PathEval(b).run():
+            if pth.end != "return":
+                continue
+            n += 1
+            news = [c for c in pth.calls if (c[1].get("path") or "").endswith("StaticDirective::new")]
+            adds = [c for c in pth.calls if c[1].get("method") == "add" and "DirectiveSet" in (c[1].get("path") or "")]
+            if len(news) != 1 or [show(a) for a in news[0][2]] != args:
+                problems.append("builds %s" % [[show(a)[:40] for a in c[2]] for c in news])
+            if len(adds) != 1 or show(adds[0][2][0]) != "arg1.0" or not show(adds[0][2][1]).startswith("new("):
+                problems.append("does not add the directive to its own set exactly once")
+            if pth.ret != ("arg", 1):
+                problems.append("returns %s, not the extended Targets" % show(pth.ret)[:40])
+        if problems or not n:
+            ck.bad("C11.R19", key, where(b.raw["sp"]), "; ".join(sorted(set(problems))) or "no path", fn=b.path)
+        else:
+            ck.ok("C11.R19", key, fn=b.path)
